@@ -15,8 +15,8 @@ from vt.common import HarnessError
 LEVEL = 'other'
 EXPLANATION = (
     'The real parse_cpu_in_mcpu / parse_memory_in_bytes / parse_storage_in_bytes are re-read from /repo and evaluated '
-    'symbolically (vt/pyk.py) on "a numeral with k fractional digits whose digits spell the symbolic integer N, followed '
-    'by suffix s": float(numeral) is fp.div RNE(N, 10^k) in Float64, *, / are RNE, int() is fp.to_sbv RTZ, math.ceil is '
+    'symbolically (vt/pyk.py, including module-level helpers and str operations on the shaped argument) on "a numeral with k '
+    'fractional digits whose digits spell the symbolic integer N, followed by suffix s": float(numeral) is fp.div RNE(N, 10^k) in Float64, *, / are RNE, int() is fp.to_sbv RTZ, math.ceil is '
     'RTP. One SMT query (QF_BVFP; z3 4.8.12 and cvc5 in a portfolio) per (function, k, suffix) decides result == '
     'floor(N*1000/10^k) millicores (cpu; "m": floor(N/10^k)) resp. ceil(N*factor/10^k) bytes for ALL N below the bound; a '
     'second reading of the same AST in exact rational arithmetic separates "wrong formula" from "binary floating point '
@@ -50,71 +50,115 @@ def spec_language(kind):
     return z3.Concat(z3.Option(z3.Re('+')), number, z3.Option(suf), z3.Option(z3.Re('B')))
 
 
-# ---- the parser's view of "the match object" ---------------------------------------------------------
+# ---- the parser's view of the argument string and of "the match object" ---------------------------------
 class SymMatch:
-    """Stands for re.Match of the REAL pattern on a string of the given shape: group structure is taken from
-    the real pattern run on an exemplar of the same shape; the numeral group is the symbolic numeral."""
+    """re.Match of the REAL pattern on a shaped string: every group is mapped back from the spans the real pattern
+    produces on renderings of the shape (digits rendered as 7s, unknown digit counts with several lengths)."""
 
-    def __init__(self, real_match, numeral_span, numeral):
-        self.m = real_match
-        self.numeral_span = numeral_span
-        self.numeral = numeral
+    def __init__(self, groups, index):
+        self.groups_ = groups      # [group 0, group 1, ...]: str | pyk.SStr | pyk.SDecStr | None
+        self.index = index         # name -> group number
 
-    @pyk.native
-    def group(self, i=0):
-        sp = self.m.span(i)
-        if sp == self.numeral_span:
-            return self.numeral
-        g = self.m.group(i)
-        if g is None:
-            return None
-        if sp[1] <= self.numeral_span[0] or sp[0] >= self.numeral_span[1]:
-            return g
-        raise HarnessError(f'group({i}) overlaps the numeral without being the numeral (span {sp})')
+    def _one(self, i):
+        if isinstance(i, str):
+            i = self.index[i]
+        return self.groups_[i]
 
     @pyk.native
+    def group(self, *idx):
+        if not idx:
+            return self.groups_[0]
+        if len(idx) == 1:
+            return self._one(idx[0])
+        return tuple(self._one(i) for i in idx)
+
+    @pyk.native
+    def groups(self, default=None):
+        return tuple(default if g is None else g for g in self.groups_[1:])
+
+    @pyk.native
+    def groupdict(self, default=None):
+        return {n: (default if self.groups_[i] is None else self.groups_[i]) for n, i in self.index.items()}
+
+    def __getitem__(self, i):
+        return self._one(i)
+
     def __bool__(self):
         return True
 
 
 class SymPattern:
-    def __init__(self, real, exemplar, numeral_span, numeral):
+    def __init__(self, real, it):
         self.real = real
-        self.exemplar = exemplar
-        self.numeral_span = numeral_span
-        self.numeral = numeral
+        self.it = it
         self.used = []
 
-    def _do(self, how, s):
-        if s is not SIZE_STRING:
-            raise HarnessError('regex applied to something other than the parser argument')
+    def _do(self, how, s, *extra):
+        it = self.it
+        if extra:
+            raise HarnessError('regex call with pos/endpos')
         self.used.append(how)
-        m = getattr(self.real, how)(self.exemplar)
-        return None if m is None else SymMatch(m, self.numeral_span, self.numeral)
+        if isinstance(s, str):
+            return getattr(self.real, how)(s)
+        if not isinstance(s, (pyk.SStr, pyk.SDecStr)):
+            raise HarnessError(f'regex applied to {type(s).__name__}')
+        segs = it._segs(s)
+        outs = []
+        for L in (1, 3, 6):
+            text = it._render(segs, L, '7')
+            m = getattr(self.real, how)(text)
+            if m is None:
+                outs.append(None)
+                continue
+            # positions of the segments in this rendering
+            pos = []
+            at = 0
+            for q in segs:
+                n = len(q) if isinstance(q, str) else (q.int_digits if q.int_digits is not None else L)
+                pos.append((at, at + n, q))
+                at += n
+            groups = []
+            for gi in range(self.real.groups + 1):
+                a, b = m.span(gi)
+                if a < 0:
+                    groups.append(None)
+                    continue
+                parts = []
+                for lo, hi, q in pos:
+                    x, y = max(a, lo), min(b, hi)
+                    if x >= y:
+                        continue
+                    if isinstance(q, str):
+                        parts.append(q[x - lo:y - lo])
+                    elif (x, y) == (lo, hi):
+                        parts.append(q)
+                    else:
+                        raise HarnessError(f'group({gi}) cuts through the digits of the numeral')
+                groups.append(it.mkstr(parts))
+            outs.append(groups)
+        if all(o is None for o in outs):
+            return None
+        if any(o is None for o in outs) or not all(it._same_shape(outs[0], o) for o in outs[1:]):
+            raise HarnessError('the regex outcome depends on the number of digits of the numeral')
+        return SymMatch(outs[0], dict(self.real.groupindex))
 
     @pyk.native
-    def fullmatch(self, s):
-        return self._do('fullmatch', s)
+    def fullmatch(self, s, *extra):
+        return self._do('fullmatch', s, *extra)
 
     @pyk.native
-    def match(self, s):
-        return self._do('match', s)
+    def match(self, s, *extra):
+        return self._do('match', s, *extra)
+
+    @pyk.native
+    def search(self, s, *extra):
+        return self._do('search', s, *extra)
 
 
-class _SizeString:
-    def __repr__(self):
-        return '<size string>'
-
-
-SIZE_STRING = _SizeString()
-
-
-def exemplar(k, suffix, plus, empty_int, b):
-    ip = '' if empty_int else '907'
-    num = ip + ('.' + '3' * k if k else '')
-    s = ('+' if plus else '') + num + (suffix or '') + ('B' if b else '')
-    start = 1 if plus else 0
-    return s, (start, start + len(num))
+def shaped_argument(it, N, k, suffix, plus, empty_int, b):
+    """The parser argument for one spelling shape: ['+'] numeral [suffix] ['B'] with symbolic digits N."""
+    num = pyk.SDecStr(N, k, 0 if empty_int else None)
+    return it.mkstr((['+'] if plus else []) + [num] + ([suffix] if suffix else []) + (['B'] if b else []))
 
 
 def render(n, k, suffix, plus=False, b=False):
@@ -128,18 +172,23 @@ def expected(n, k, suffix, info):
     return math.floor(q) if info['rounding'] == 'floor' else math.ceil(q)
 
 
-def interp_paths(mod, fname, node, k, suffix, mode, width, nmax, variant):
+def interp_paths(mod, fname, node, k, suffix, mode, width, nmax, variant, on_function=None):
     """Symbolic evaluation of the real function on one shape.  Returns (interp, N, paths)."""
-    it = pyk.Interp(width=width, float_mode=mode)
+    it = pyk.Interp(width=width, float_mode=mode, on_function=on_function)
     N = it.int_var('N')
     it.assume(z3.And(N.t >= 0, N.t < nmax))
+    if variant[1]:
+        # empty integer part: the digits are the k fraction digits only
+        it.assume(N.t < min(nmax, 10 ** k))
     globs = dict(vars(mod))
     pats = {}
-    ex, span = exemplar(k, suffix, *variant)
     for name, v in list(globs.items()):
         if isinstance(v, re.Pattern):
-            pats[name] = globs[name] = SymPattern(v, ex, span, pyk.SDecStr(N, k))
-    paths = it.explore(lambda i: i.call_node(node, [SIZE_STRING], {}, globs))
+            pats[name] = globs[name] = SymPattern(v, it)
+    # helper functions of the module see the same (pattern-substituted) globals
+    it.glob_overrides[id(vars(mod))] = globs
+    arg = shaped_argument(it, N, k, suffix, *variant)
+    paths = it.explore(lambda i: i.call_node(node, [arg], {}, globs))
     return it, N, paths, pats
 
 
@@ -332,6 +381,15 @@ def numeric_half(R, mod):
     jobs = []      # (key, smt text)
     meta = {}
     dedupe = {}
+    seen_fn = set()
+
+    def on_fn(f, fnode, src):
+        # helper functions the parsers call (interpreted like the parsers themselves)
+        key = (f.__code__.co_filename, f.__code__.co_firstlineno)
+        if key not in seen_fn:
+            seen_fn.add(key)
+            rel = f.__code__.co_filename.split('/python/', 1)[-1]
+            R.encode(f'hail/python/{rel}:{f.__code__.co_firstlineno} {f.__qualname__}', src)
     for fname, info in FUNCS.items():
         node = nodes.get(fname)
         if node is None:
@@ -347,7 +405,7 @@ def numeric_half(R, mod):
                 for mode in ('exact', 'fp64'):
                     terms = {}
                     for var in variants:
-                        it, N, paths, pats = interp_paths(mod, fname, node, k, suffix, mode, width, nmax, var)
+                        it, N, paths, pats = interp_paths(mod, fname, node, k, suffix, mode, width, nmax, var, on_fn)
                         spec = spec_term(it, N, k, suffix, info)
                         vio = violation(it, paths, spec)
                         terms.setdefault(vio.sexpr(), (it, N, paths, spec, vio, var))
@@ -493,8 +551,13 @@ def run(R):
     R.assume('float() of a decimal numeral is the correctly rounded binary64 value (CPython dtoa), independent of leading '
              'zeros and of a missing integer part; it equals fp.div RNE(N, 10^k) because N < 2^53 and 10^k (k <= 22) are exact',
              'Python int(float) truncates (RTZ), math.ceil(float) rounds toward +inf (RTP), float * and / are IEEE-754 RNE',
-             'group structure of the match object is taken from the REAL compiled pattern run on an exemplar of each '
-             'shape (sign, empty integer part, k, suffix, B); the numeral group is the symbolic numeral',
+             'the parser argument is a shaped string: optional "+", a numeral with symbolic digits (integer part empty or of '
+             'unknown length >= 1, k fraction digits), optional suffix, optional "B"; str operations on it and on the regex '
+             'groups (in, isdigit, partition/split, strip, startswith/endswith, slicing, len, int/float/Fraction/Decimal) are '
+             'decided per shape by running the REAL str method / regex / converter on several renderings (digits as 7s or '
+             'private-use characters, unknown digit counts with several lengths) and requiring one structural answer; an '
+             'operation whose answer would depend on digit values or on the number of leading zeros is refused (exit 2)',
+             'helper functions defined in parse.py are interpreted like the parsers (with the same substituted regex objects)',
              'Fraction(...)/Decimal(...) of the numeral, if the code uses them, are read as exact rationals '
              '(Decimal context precision 28 is not modelled; operands here have < 28 significant digits)',
              'the denoted value of "{number}{suffix}" is number * unit with units K=10^3 Ki=2^10 ... P=10^15 Pi=2^50, '
